@@ -144,6 +144,12 @@ func (f *tokenAccum) emitToken(ty TokenType, startOfs, endOfs int) {
 		if (len(seq) == 1 && seq[0] == '\n') || (len(seq) == 2 && seq[0] == '\r' && seq[1] == '\n') {
 			end.Line++
 			end.Column = 1
+		} else if nl := bytes.Count(seq, []byte{'\n'}); nl > 0 {
+			// An ill-formed UTF-8 sequence can swallow the newline bytes that
+			// follow it into a single segment. Those are still line breaks in
+			// the source, so count them to keep later positions accurate.
+			end.Line += nl
+			end.Column = 1
 		} else {
 			end.Column++
 		}
